@@ -242,3 +242,53 @@ Proof.
   intros Hc Hr HF. cbn [run_all]. unfold run at 1. rewrite Hc. unfold execute. rewrite Hc, Hr.
   f_equal. apply run_all_wf; [left; reflexivity|exact HF].
 Qed.
+
+(* ---------------------------------------------------------------- when is the marker "free"? *)
+(* [no_early] follows from what one would say informally: the marker contains no ':' and
+   marker":" does not occur in the output. *)
+Lemma startswith_split p : forall X R, startswith p (X ++ R) = true ->
+  startswith p X = true \/ (exists p2, p2 <> EmptyString /\ p = X ++ p2 /\ startswith p2 R = true).
+Proof.
+  induction p as [|c p IH]; intros X R H; [left; destruct X; reflexivity|].
+  destruct X as [|x X].
+  - right. exists (String c p). split; [discriminate|split; [reflexivity|exact H]].
+  - simpl in H. apply andb_true_iff in H. destruct H as [Hc Hp].
+    destruct (IH X R Hp) as [Hl|(p2 & Hne & -> & Hs)].
+    + left. simpl. rewrite Hc, Hl. reflexivity.
+    + right. exists p2. split; [exact Hne|]. apply Ascii.eqb_eq in Hc. subst x. split; [reflexivity|exact Hs].
+Qed.
+
+Lemma has_char_prefix c p : forall a, startswith p a = true -> has_char c p = true -> has_char c a = true.
+Proof.
+  induction p as [|x p IH]; intros a Hs Hc; [discriminate|].
+  destruct a as [|y a]; simpl in *; [discriminate|].
+  apply andb_true_iff in Hs. destruct Hs as [Hxy Hs]. apply Ascii.eqb_eq in Hxy. subst y.
+  apply orb_true_iff in Hc. destruct Hc as [Hc|Hc]; [rewrite Hc; reflexivity|].
+  rewrite (IH a Hs Hc). apply orb_true_r.
+Qed.
+
+Lemma last_colon : forall X a p2, a ++ ":" = X ++ p2 -> p2 <> EmptyString -> has_char ":"%char p2 = true.
+Proof.
+  induction X as [|x X IH]; intros a p2 E Hne.
+  - simpl in E. subst p2. rewrite has_char_append. simpl. apply orb_true_r.
+  - destruct a as [|y a]; simpl in E.
+    + inversion E as [[E1 E2]]. destruct X; [simpl in E2; congruence|discriminate].
+    + inversion E as [[E1 E2]]. eapply IH; eassumption.
+Qed.
+
+Theorem no_early_intro marker : has_char ":"%char marker = false ->
+  forall out t, cut (marker ++ ":") out = None -> no_early (marker ++ ":") out t = true.
+Proof.
+  intros Hm. induction out as [|c o IH]; intros t Hc; [reflexivity|].
+  rewrite cut_unfold in Hc.
+  destruct (startswith (marker ++ ":") (String c o)) eqn:Es; [discriminate|].
+  destruct (cut (marker ++ ":") o) as [[a b]|] eqn:Eo; [discriminate|].
+  cbn [no_early]. rewrite (IH t eq_refl), andb_true_r. apply negb_true_iff.
+  destruct (startswith (marker ++ ":") (String c o ++ (marker ++ ":") ++ t)) eqn:E; [|reflexivity].
+  exfalso. destruct (startswith_split _ _ _ E) as [Hl|(p2 & Hne & Heq & Hs)]; [congruence|].
+  pose proof (last_colon _ _ _ Heq Hne) as Hcol.
+  assert (Hlen : String.length p2 <= String.length marker).
+  { apply (f_equal String.length) in Heq. rewrite !length_append in Heq. simpl in Heq. lia. }
+  rewrite append_assoc in Hs. rewrite startswith_long in Hs by exact Hlen.
+  rewrite (has_char_prefix _ _ _ Hs Hcol) in Hm. discriminate.
+Qed.
